@@ -15,6 +15,11 @@ SYSCTL = "/proc/sys/fs/protected_symlinks"
 def build_case(g, idx):
     mode = 0o755 | (0o1000 if g["sticky"] else 0) | (0o002 if g["ww"] else 0)
     tree = [dict(id=5, p=2, n="s", k="dir", mode=mode, uid=g["dirUid"]), dict(id=6, p=2, n="t", k="dir", mode=0o755), dict(id=7, p=6, n="f", k="file", mode=0o644)]
+    if g["pos"] == "abs-into-root":
+        # the root directory itself carries the mode bits and the owner; t/abs -> /lnk, lnk (in the root) -> t/f
+        tree = [dict(id=90, p=2, n="", k="rootattr", mode=mode, uid=g["dirUid"]), dict(id=6, p=2, n="t", k="dir", mode=0o755), dict(id=7, p=6, n="f", k="file", mode=0o644),
+                dict(id=8, p=2, n="lnk", k="lnk", b="t/f", uid=g["linkUid"]), dict(id=9, p=6, n="abs", k="lnk", b="/lnk", uid=g["caller"])]
+        return tree, "t/abs"
     if g["pos"] == "trailing":
         tree.append(dict(id=8, p=5, n="lnk", k="lnk", b="../t/f", uid=g["linkUid"]))
         path = "s/lnk"
